@@ -124,6 +124,11 @@ def _setup(case):
         params = ''.join(', a%d' % k for k in range(nargs))
         argt = '(' + ''.join('a%d, ' % k for k in range(nargs)) + ')'
         src = 'def dbus_%s(self, tok%s):\n    return self._impl(%r, tok, %s)\n' % (m['name'], params, m['name'], argt)
+        if (case['methods'].index(m) + case['nclients']) % 3 == 1:
+            # the method asks who is calling, after a parameter of its own that the wire signature does not know
+            src = ('def dbus_%s(self, tok%s, _step=10, dbusCaller=None):\n    if _step != 10 or not isinstance(dbusCaller, str):\n'
+                   '        raise RuntimeError("called with _step=%%r dbusCaller=%%r" %% (_step, dbusCaller))\n'
+                   '    return self._impl(%r, tok, %s)\n' % (m['name'], params, m['name'], argt))
         if (case['methods'].index(m) + case['nclients']) % 3 == 2:
             # this method is written as a coroutine function; where the scripted outcome is a Deferred it awaits it
             src = ('async def dbus_%s(self, tok%s):\n    r = self._impl(%r, tok, %s)\n    if isinstance(r, Deferred):\n'
